@@ -16,6 +16,13 @@ def files():
         fs = glob.glob(os.path.join(root, "**", "*.vhd"), recursive=True)
         fs += glob.glob(os.path.join(vsgapi.VERIF, "corpus_extra", "*.vhd"))
         _FILES = sorted(os.path.relpath(f, vsgapi.REPO) if f.startswith(vsgapi.REPO) else f for f in fs)
+        bad = set()
+        ex = os.path.join(vsgapi.VERIF, "tables", "invalid_fixtures.txt")
+        for l in open(ex):
+            l = l.split("#")[0].strip()
+            if l:
+                bad.add(l)
+        _FILES = [f for f in _FILES if f not in bad]
     return _FILES
 
 
